@@ -719,7 +719,7 @@ func (g *G) Hook(id int, label string) HookSpec {
 	t := g.t
 	h := HookSpec{ID: id}
 	h.Kind = rapid.SampledFrom([]string{"add", "add", "add", "getctx", "noop", "discard"}).Draw(t, label+".hk")
-	h.Wrap = rapid.SampledFrom([]string{"", "func", "level"}).Draw(t, label+".hw")
+	h.Wrap = rapid.SampledFrom([]string{"", "", "func", "level", "levelsome"}).Draw(t, label+".hw")
 	switch h.Kind {
 	case "add":
 		save := g.cfg.MaxOps
